@@ -148,6 +148,17 @@ CHECKS = {
         "Trusted: own binning rule and per-mode sums (numpy). Bounds on N. Empty bins under 'average' (mean of an empty set) are outside the property and masked.",
         "DESIGN.md §4 C17",
     ),
+    "C19": (
+        "bounded exhaustive exploration of a stiffness lattice x ETDRK orders x nonlinear terms and of every public stepper x orders, executed in two separate precision sessions whose result tables are joined",
+        "Each work unit spawns a default (float32) and an x64 interpreter. Both enumerate ETDRK orders 0-4 on z=lambda*dt from 0 down to -1e15 (real axis, "
+        "imaginary axis and left-half-plane rays) with three user-defined nonlinear terms, an O(1) state and the zero state, and every catalogue stepper x "
+        "order 0-4 x smooth states + zero state. The parent checks finiteness, that results carry the session's default precision (real and Fourier "
+        "space), zero -> zero for unforced equations, agreement of the two sessions within 400*eps32*(1+|lambda dt|)*scale, and - in the x64 session - "
+        "that the step does not lose double precision in its transforms (cross-check with numpy float64 FFTs).",
+        "Trusted: numpy FFT for the x64 cross-check. For |z| > 1e3 only finiteness/dtype are claimed (single-precision rounding of z itself changes the phase). "
+        "Double-precision fidelity of step_fourier is decided by C02.",
+        "DESIGN.md §4 C19",
+    ),
     "C20": (
         "bounded exhaustive exploration of the discrete option space: every exported stepper class x D x all single-edit shape mutations; every guard x argument combination",
         "Every public stepper class (catalogue variants plus a run-time enumeration of the package exports with default arguments, so a new class is "
